@@ -2,7 +2,11 @@ package p17
 
 import (
 	"fmt"
+	"github.com/nyaruka/goflow/envs"
+	"github.com/nyaruka/goflow/excellent/types"
+	"regexp"
 	"strings"
+	"time"
 
 	"github.com/nyaruka/goflow/excellent"
 	"github.com/nyaruka/goflow/flows"
@@ -17,9 +21,56 @@ const pairChunks = 16
 
 func directedRand(tag string, i int) *fw.Rand { return fw.NewRand(0, "C17-directed-"+tag, i) }
 
+// optionsDateReferences: what a template migrates to is a function of the template and the options, whatever was migrated
+// before; and for a date reference the RawDates option decides between the date itself and its formatted text, which are
+// different expressions: rendered in a day-first environment the first is written year-first (ISO) and the second day-first.
+func optionsDateReferences(cs *caseState) {
+	res := cs.res
+	env := envs.NewBuilder().WithDateFormat(envs.DateFormatDayMonthYear).WithTimeFormat(envs.TimeFormatHourMinute).WithTimezone(time.UTC).Build()
+	ctx := types.NewXObject(map[string]types.XValue{})
+	ev := excellent.NewEvaluator()
+	mig := func(src string, o *expressions.MigrateOptions) string {
+		out, err := expressions.MigrateTemplate(src, o)
+		if err != nil {
+			return "error: " + err.Error()
+		}
+		return out
+	}
+	raw := &expressions.MigrateOptions{RawDates: true}
+	dayFirst := regexp.MustCompile(`^\d\d-\d\d-\d{4}`)
+	yearFirst := regexp.MustCompile(`^\d{4}-\d\d-\d\d`)
+	for _, ref := range []string{"date.today", "date.tomorrow", "date.yesterday", "date.now", "DATE.TODAY"} {
+		for _, src := range []string{"@" + ref, "Today is @" + ref + ".", "@(" + ref + ")", "@(" + ref + " + 2)", "@(DAYS(" + ref + ", " + ref + "))"} {
+			res.Count("templates", 1)
+			res.Count("clause.options.date_reference", 1)
+			cs.fp.WriteString(src + "\n")
+			a1, b1, a2, b2 := mig(src, nil), mig(src, raw), mig(src, nil), mig(src, raw)
+			w := map[string]any{"legacy_template": src, "migrated_default": a1, "migrated_raw_dates": b1, "migrated_default_again": a2, "migrated_raw_dates_again": b2}
+			if a1 != a2 || b1 != b2 {
+				res.Violate("options|history-dependent", "the same template migrated with the same options gave another result after a migration with other options", w)
+				continue
+			}
+			if src != "@"+ref || strings.HasPrefix(a1, "error") || strings.EqualFold(ref, "date.now") {
+				continue // (date.now is a datetime and is migrated to now() under either option)
+			}
+			// the bare reference: formatted text by default, the date itself with RawDates
+			oa, _, _ := ev.Template(env, ctx, a1, nil)
+			ob, _, _ := ev.Template(env, ctx, b1, nil)
+			w["rendered_default"], w["rendered_raw_dates"] = oa, ob
+			if !dayFirst.MatchString(oa) {
+				res.Violate("options|date-reference-not-formatted", "a bare legacy date reference migrated with default options does not render as the date in the environment's format", w)
+			} else if !yearFirst.MatchString(ob) {
+				res.Violate("options|raw-date-reference-formatted", "a bare legacy date reference migrated with RawDates does not evaluate to the date itself", w)
+			}
+		}
+	}
+}
+
 func (p *c17) directed(c fw.Case, cs *caseState) {
 	res := cs.res
 	switch {
+	case c.Directed == "options-date-references":
+		optionsDateReferences(cs)
 	case c.Directed == "known-probes":
 		d := func() *node { return call("DATE", tD, num("2015"), num("8"), num("15")) } // a Saturday
 		probes := []*node{
@@ -190,7 +241,7 @@ func (p *c17) directed(c fw.Case, cs *caseState) {
 }
 
 func directedNames() []string {
-	names := []string{"known-probes", "each-function-top", "literals", "templates-text", "pinned-corpus", "negative-indexes"}
+	names := []string{"known-probes", "each-function-top", "literals", "templates-text", "pinned-corpus", "negative-indexes", "options-date-references"}
 	for i := 0; i < pairChunks; i++ {
 		names = append(names, fmt.Sprintf("pairs-%02d", i))
 	}
